@@ -418,7 +418,7 @@ def case(ctx, case):
     cwd = os.getcwd()
     try:
         os.chdir(d)
-        trainer = RL4COTrainer(max_epochs=case.get("epochs", 3), accelerator="cpu", devices=1, logger=False, enable_checkpointing=False, enable_progress_bar=False, enable_model_summary=False,
+        trainer = RL4COTrainer(matmul_precision="highest", max_epochs=case.get("epochs", 3), accelerator="cpu", devices=1, logger=False, enable_checkpointing=False, enable_progress_bar=False, enable_model_summary=False,
                                precision="32-true", default_root_dir=d, num_sanity_val_steps=0)
         trainer.fit(model)
         ctx.count("c16_fits")
